@@ -5,6 +5,9 @@ from engine import site as engine_site
 
 CONFIGS = ['prod']
 EXPLANATION = (
+    'SEM (primary): the per-key transfer function of OrSWotSet::merge, computed by abstract interpretation over order types for all 19 abstract inputs and '
+    "every answer of the version gates, equals the last-write-wins join (insert wins a tie) with the observed-remove gates, and every path merges the peer'"
+    's version stamps; VSEM: the version vectors keep the newer stamp per (source, origin) and recompute the purge cut-off. Structural fallback: '
     'The algebraic laws themselves are NOT decided (they need evaluation of merge over all reachable sets). Decided: '
     'clauses L, B, D, M and S — S: the purge cut-off table has a single writer (the min-over-sources-minus-forgiveness computation), also on the merge path;  D: a timestamp removed from its map is re-inserted, joined, or dropped only where it is the smaller one;  M: every path through merge merges the peer\'s version stamps;  B: a timestamp written into a map slot with `insert` must have competed with what the slot held (re-insert of the looked-up value, max-join with it, or a guard against it); L — in OrSWotSet::merge and NodeVersions::merge, wherever two timestamps compete for one key / one '
     '(source, origin) stamp and one survives, the guard edge normalises to dropped <= survivor; joins use max, never min. '
